@@ -46,3 +46,27 @@ package mapset
 //@ func (MapSet) All
 //@   props C03 C11
 //@   itercanonical
+
+// Container is the read-only view used for `in [set]` queries.
+//@ func (Container) Contains
+//@   pure
+//@ func (Container) Len
+//@   pure
+
+//@ func (MapSet) Intersects
+//@   props C03 C11
+//@   results r
+//@   ensures r == (exists x T :: has(h.m, x) && o.Contains#0(x))
+//@   loop 1
+//@     invariant forall x T :: $done[x] ==> !o.Contains#0(x)
+
+//@ func (ImmutableMapSet) Intersects
+//@   props C03 C11
+//@   results r
+//@   ensures r == (exists x T :: has(h.m, x) && o.Contains#0(x))
+
+//@ func Make
+//@   props C03 C11
+//@   results s
+//@   ensures s != nil && !isnil(s.m) && len(s.m) == 0
+//@   ensures forall x T :: !has(s.m, x)
